@@ -8,6 +8,7 @@ import (
 	"crypto/tls"
 	"fmt"
 	"io"
+	"net"
 	"runtime/pprof"
 	"sort"
 	"strings"
@@ -751,4 +752,19 @@ func HostAcceptOwn(cmd plugins.Cmd, id uint32) (stop func(), err error) {
 	srv := plugins.NewPingPongServer(nil, id, nil)
 	go k.Trap(func() { srv.Serve(ln) })
 	return srv.Stop, nil
+}
+
+// HostAcceptOwnLn is HostAcceptOwn that also hands out the listener.
+func HostAcceptOwnLn(cmd plugins.Cmd, id uint32) (stop func(), ln net.Listener, err error) {
+	gc, ok := cmd.(*plugins.GRPCClient)
+	if !ok {
+		return nil, nil, fmt.Errorf("HostAcceptOwnLn: gRPC only")
+	}
+	ln, err = gc.Broker.Accept(id)
+	if err != nil {
+		return nil, nil, err
+	}
+	srv := plugins.NewPingPongServer(nil, id, nil)
+	go k.Trap(func() { srv.Serve(ln) })
+	return srv.Stop, ln, nil
 }
